@@ -1,6 +1,7 @@
 """C18 — lookup succeeds if any server can answer, within the deadline: error-classification table, truncated => TCP retry,
 deadline test on every round, sleep clamped to remaining budget, check-then-insert under one lock, failed connections dropped."""
 import re
+import argnames
 from api import shorten, Site
 
 EXPLANATION = (
@@ -121,3 +122,8 @@ def run(cx):
                 exits = [e for e in exits if e.bb in cx.reachable_from(n, err_edge)]
                 cx._number(exits)
                 cx.must_pass('C18.G1', n, exits, via_blocks={failed[0].bb}, start_blocks=err_edge, what='every-send-error-marks-the-connection-Failed')
+
+    # ---------------------------------------------------------------- N1 argument names agree with the parameters they are bound to (engine/argnames.py)
+    argnames.check(cx, 'C18.N1', r'hickory_resolver::(connection_provider|name_server|name_server_pool)', floor=50)
+    argnames.check_fields(cx, 'C18.N1', r'hickory_resolver::(connection_provider|name_server|name_server_pool)', floor=16)
+
